@@ -52,6 +52,10 @@ Factor(g, age, e) ==
              row == CHOOSE i \in DOMAIN FactorEvents : FactorEvents[i] = FactorEvent(e)
          IN IF g = "M" THEN FactorsM[row][col] ELSE FactorsF[row][col]
 
+\* a scored event for which the masters table has no row, asked at a masters age: what to do is not specified (lenient);
+\* below the first band the score is unadjusted whether or not the table knows the event
+NoFactorRegion(e, age) == age >= FactorAges[1] /\ ~HasFactor(e)
+
 \* --- the score --------------------------------------------------------------
 \* veterans' short hurdles are scored on the 100H / 110H row
 ScoreEvent(g, e) == IF g = "F" /\ e = "80H" THEN "100H" ELSE IF g = "M" /\ e \in {"80H", "100H"} THEN "110H" ELSE e
@@ -62,16 +66,16 @@ NoScore == -1
 Score(g, e, c, age, esaa) ==
     LET k == KeyIdx(ScoreKey(g, e, esaa)) IN
     IF k = 0 THEN NoScore
-    ELSE IF age > 0 /\ ~HasFactor(e) THEN NoScore
-    ELSE LET f == IF age = 0 THEN 10000 ELSE Factor(g, age, e)
+    ELSE IF NoFactorRegion(e, age) THEN NoScore
+    ELSE LET f == IF age < FactorAges[1] THEN 10000 ELSE Factor(g, age, e)
              adj == MulDiv(c, f, KindOf[k] = "track")      \* times rounded up, distances down
          IN PointsAt(k, adj)
 
 \* is the reference defined (exact) for this input?
 Covered(g, e, c, age, esaa) ==
     LET k == KeyIdx(ScoreKey(g, e, esaa)) IN
-    k = 0 \/ (age > 0 /\ ~HasFactor(e)) \/
-    InRange(k, MulDiv(c, IF age = 0 THEN 10000 ELSE Factor(g, age, e), KindOf[k] = "track"))
+    k = 0 \/ NoFactorRegion(e, age) \/
+    InRange(k, MulDiv(c, IF age < FactorAges[1] THEN 10000 ELSE Factor(g, age, e), KindOf[k] = "track"))
 
 \* --- the inverse (C09) ------------------------------------------------------
 \* the least-demanding centi-mark worth at least t points (t >= 1); for t <= 0 the zero point
